@@ -142,7 +142,7 @@ theorem Reaches.cycRel {c c' : Ctx} {root} (r : Reaches c root c') (h : CInv c r
   obtain ⟨new, e, f⟩ := r.cframe h
   exact ⟨new, e, fun hn => (f hn).sameCycle⟩
 
-theorem runCollector_reaches {a : Arena} (h : Inv a) (hcb : a.cb = none) {ru stop fault oracle c ex}
+theorem runCollector_reaches_c {a : Arena} (h : Inv a) (hcb : a.cb = none) {ru stop fault oracle c ex}
     (hr : a.runCollector ru stop fault oracle = some (c, ex)) : Reaches a.ctx a.root c := by
   have h0 : CInv a.ctx a.root [] := by have := h.cinv; rw [h.cbTemps hcb] at this; exact this
   unfold Arena.runCollector at hr
@@ -164,7 +164,7 @@ theorem runCollector_reaches {a : Arena} (h : Inv a) (hcb : a.cb = none) {ru sto
 theorem runCollector_cyc {a : Arena} (h : Inv a) (hcb : a.cb = none) {ru stop fault oracle c ex}
     (hr : a.runCollector ru stop fault oracle = some (c, ex)) : CycRel 0 a.ctx c := by
   have h0 : CInv a.ctx a.root [] := by have := h.cinv; rw [h.cbTemps hcb] at this; exact this
-  exact (runCollector_reaches h hcb hr).cycRel h0
+  exact (runCollector_reaches_c h hcb hr).cycRel h0
 
 theorem marked?_cyc {a : Arena} (h : Inv a) (hcb : a.cb = none)
     (k : Cont) (o2 : Option (List Micro)) : CycRel 0 a.ctx (a.marked? k o2).1.ctx := by
@@ -264,7 +264,7 @@ theorem upgrade_steps (c : Ctx) (t : Nat) : (c.upgrade t).1.steps = c.steps := b
     | rfl
     | exact Ctx.fail_steps _ _
 
-theorem resurrect_steps (c : Ctx) (t : Nat) : (c.resurrect t).steps = c.steps := by
+theorem resurrect_steps_c (c : Ctx) (t : Nat) : (c.resurrect t).steps = c.steps := by
   unfold Ctx.resurrect
   split
   · exact Ctx.fail_steps _ _
@@ -357,13 +357,13 @@ theorem stepBody_steps (a : Arena) (fin : Bool) (op : Op) (hop : op.isMutator = 
     split
     · rfl
     · cases p with
-      | strong t => exact resurrect_steps _ _
+      | strong t => exact resurrect_steps_c _ _
       | weak t =>
         simp only
         split
         · exact Ctx.fail_steps _ _
         · split
-          · simp only [quiet_push]; exact resurrect_steps _ _
+          · simp only [quiet_push]; exact resurrect_steps_c _ _
           · rfl
   | barrier b =>
     simp only [Arena.stepBody]
@@ -640,7 +640,7 @@ theorem micros_pres {root} (ms : List Micro) : ∀ {c c' : Ctx}, CInv c root [] 
 theorem runCollector_pres {a : Arena} (h : Inv a) (hp : P a.ctx) (hcb : a.cb = none)
     {ru stop fault oracle c ex} (hr : a.runCollector ru stop fault oracle = some (c, ex)) : P c := by
   have h0 : CInv a.ctx a.root [] := by have := h.cinv; rw [h.cbTemps hcb] at this; exact this
-  obtain ⟨ms, hms⟩ := runCollector_reaches h hcb hr
+  obtain ⟨ms, hms⟩ := runCollector_reaches_c h hcb hr
   exact micros_pres P hP ms h0 hp hms
 
 theorem marked?_pres {a : Arena} (h : Inv a) (hp : P a.ctx) (hcb : a.cb = none)
